@@ -702,9 +702,24 @@ Proof.
   pose proof (Z.div_mod (v + 2 ^ k - 1) (2 ^ k) ltac:(lia)). lia.
 Qed.
 
-(* a rebuilt resizable volume with a power-of-two block size: exactly Length bytes, Length is the
-   old one or, when the files need more, the next block boundary, and the first block-map entry
-   says so *)
+Lemma div_mul_exact a p : 0 < p -> a mod p = 0 -> a / p * p = a.
+Proof. intros Hp Hm. pose proof (Z.div_mod a p ltac:(lia)). lia. Qed.
+
+(* the bytes of the block-map entries after the first, as Assemble adds them up (uint64) *)
+Definition rest_bytes (rest : list (Z * Z)) : Z :=
+  fold_left (fun a b => (a + fst b * snd b) mod U64) rest 0.
+
+Lemma fold_blocks_range : forall rest a, 0 <= a < U64 ->
+  0 <= fold_left (fun a b => (a + fst b * snd b) mod U64) rest a < U64.
+Proof.
+  induction rest as [|x r IH]; intros a Ha; cbn [fold_left]; [exact Ha|].
+  apply IH. apply Z.mod_pos_bound. unfold U64. lia.
+Qed.
+
+(* a rebuilt resizable volume with a power-of-two block size: exactly Length bytes; Length is the
+   old one or, when the files need more, the further block-map entries' bytes plus the rest
+   rounded up to the first entry's block size, and the first block-map entry says so: the block
+   map adds up to Length *)
 Lemma asm_vol_v_len_resizable pol ffs3 h buf files h' b c k rest :
   asm_vol pol ffs3 h buf files = Ok (h', b) ->
   vol_verbatim h files = false -> v_resizable h = true ->
@@ -712,8 +727,10 @@ Lemma asm_vol_v_len_resizable pol ffs3 h buf files h' b c k rest :
   end_of (v_dataoff h) files + 2 ^ k <= 2 ^ 64 ->
   zlen b = v_length h' /\
   ((v_length h' = v_length h /\ v_blocks h' = v_blocks h) \/
-   (v_length h < v_length h' /\ v_length h' = align (end_of (v_dataoff h) files) (2 ^ k) /\
-    v_blocks h' = ((v_length h' / 2 ^ k) mod U32, 2 ^ k) :: rest)).
+   (v_length h < v_length h' /\ end_of (v_dataoff h) files <= v_length h' /\
+    v_length h' = rest_bytes rest + align (Z.max 0 (end_of (v_dataoff h) files - rest_bytes rest)) (2 ^ k) /\
+    v_blocks h' = (((v_length h' - rest_bytes rest) / 2 ^ k) mod U32, 2 ^ k) :: rest /\
+    (v_length h' - rest_bytes rest) / 2 ^ k * 2 ^ k + rest_bytes rest = v_length h')).
 Proof.
   intros H Hv Hr Hb Hk Hd Hend. unfold asm_vol in H. fold (vol_verbatim h files) in H. rewrite Hv, Hr, Hb in H.
   assert (Hp : 0 < 2 ^ k) by (apply Z.pow_pos_nonneg; lia).
@@ -726,11 +743,32 @@ Proof.
   apply slice_len in Esl as (Lh & _ & _). rewrite Z.sub_0_r in Lh.
   destruct (place_files_layout pol None files hdr (v_dataoff h) b1 Lh Hd Hpl) as (Le & _ & _ & _).
   cbn [negb andb] in H. rewrite andb_false_r in H.
-  replace (2 ^ k =? 0) with false in H by lia.
-  rewrite align_go_pow2 in H by (try apply zlen_nonneg; rewrite ?Le; lia).
-  pose proof (align_ge (zlen b1) (2 ^ k) Hp) as Ga.
-  destruct (v_length h <? zlen b1) eqn:E2; cbn [bind] in H.
-  - set (l := align (zlen b1) (2 ^ k)) in *.
+  destruct (v_length h <? zlen b1) eqn:E2.
+  - replace (2 ^ k =? 0) with false in H by lia.
+    fold (rest_bytes rest) in H.
+    set (rs := rest_bytes rest) in *.
+    assert (Hrs : 0 <= rs < 2 ^ 64) by (apply fold_blocks_range; unfold U64; lia).
+    assert (En : (if rs <? zlen b1 then zlen b1 - rs else 0) = Z.max 0 (zlen b1 - rs))
+      by (destruct (rs <? zlen b1) eqn:E; lia).
+    rewrite En in H. set (need := Z.max 0 (zlen b1 - rs)) in *.
+    assert (Hal : align_go need (2 ^ k) = align need (2 ^ k)).
+    { apply align_go_pow2; try lia. assert (2 ^ k < 2 ^ 64) by (apply Z.pow_lt_mono_r; lia). lia. }
+    rewrite Hal in H.
+    pose proof (align_ge need (2 ^ k) Hp) as Ga.
+    pose proof (align_mult need (2 ^ k) Hp) as Gm.
+    assert (Hn : need = Z.max 0 (zlen b1 - rs)) by reflexivity.
+    assert (Hz : need = 0 -> align need (2 ^ k) = 0)
+      by (intros ->; unfold align; rewrite Z.add_0_l, Z.div_small by lia; lia).
+    assert (Hbound : rs + align need (2 ^ k) < 2 ^ 64).
+    { destruct (Z.max_spec 0 (zlen b1 - rs)) as [[_ Em] | [_ Em]]; rewrite Em in Hn.
+      - lia.
+      - rewrite (Hz Hn). lia. }
+    assert (Hl : (rs + align need (2 ^ k)) mod U64 = rs + align need (2 ^ k))
+      by (apply Z.mod_small; unfold U64; lia).
+    rewrite Hl in H. set (l := rs + align need (2 ^ k)) in *.
+    assert (Hlr : (l - rs) mod U64 = l - rs) by (apply Z.mod_small; unfold U64; lia).
+    rewrite Hlr in H. cbn [bind] in H.
+    assert (Hge : zlen b1 <= l) by lia.
     set (b2 := if zlen b1 <? l then b1 ++ zrepeat pol (l - zlen b1) else b1) in *.
     assert (L2 : zlen b2 = l).
     { unfold b2. destruct (zlen b1 <? l) eqn:E; [rewrite zlen_app, zlen_zrepeat by lia; lia | lia]. }
@@ -747,10 +785,17 @@ Proof.
     match type of H with Ok (?hh, ?bb) = Ok _ =>
       assert (Eh : hh = h') by congruence; assert (Ebb : bb = b) by congruence end.
     rewrite <- Eh, <- Ebb. cbn [v_length v_blocks]. split.
-    + rewrite zlen_splice; rewrite ?le2, ?zlen_splice; rewrite ?le4, ?L4; try lia;
+    + clear Ga Gm Hz Hbound Hl Hlr Hal En Hn Hend Hge H Eh Ebb.
+      rewrite zlen_splice; rewrite ?le2, ?zlen_splice; rewrite ?le4, ?L4; try lia;
         change (zlen [0; 0]) with 2; rewrite ?zlen_splice; rewrite ?le4, ?L4; lia.
-    + right. unfold l. rewrite Le. repeat split; auto. rewrite <- Le. lia.
-  - set (b2 := if zlen b1 <? v_length h then b1 ++ zrepeat pol (v_length h - zlen b1) else b1) in *.
+    + right. rewrite <- Le. fold need. fold l.
+      assert (Hd2 : (l - rs) / 2 ^ k * 2 ^ k = l - rs).
+      { replace (l - rs) with (align need (2 ^ k)) by (unfold l; ring). apply div_mul_exact; assumption. }
+      assert (Hlt : v_length h < l) by (clear - E2 Hge; lia).
+      assert (Hrr : l - rs + rs = l) by ring.
+      repeat split; auto. rewrite Hd2. exact Hrr.
+  - cbn [bind] in H.
+    set (b2 := if zlen b1 <? v_length h then b1 ++ zrepeat pol (v_length h - zlen b1) else b1) in *.
     assert (L2 : zlen b2 = v_length h).
     { unfold b2. destruct (zlen b1 <? v_length h) eqn:E; [rewrite zlen_app, zlen_zrepeat by lia; lia | lia]. }
     destruct (zlen b2 <? 40) eqn:E3; [discriminate|].
